@@ -1407,6 +1407,29 @@ def gen_c19(rng, tier):
         cid = f"w{j}"
         cases.append(G.dcase(cid, ds, de, s, G.Cfg("tl", "rm", "+00:00", chain[-1][0], tuple(chain[-1][1]))))
         meta[cid] = {"stream": "history", "chain": chain, "ds": ds, "de": de}
+    # known finding KF3: an unwrap-block whose wrapper lines are blank; removing its only inner element
+    # first lets the blank-line tidying reduce the lines between its tags to one, and it is never unwrapped
+    KF3 = "KF3 blank wrapper line: an earlier run leaves fewer than two lines between the tags of an unwrap-block, which is then never unwrapped"
+    cases.append(G.dcase("kf3", "<!", ">", "a\n<!tl to='2010-01-01 00:00:00' unwrap-block>\n\n<!tl to='2000-01-01 00:00:00'>q<!/tl>\n\n<!/tl>\nc",
+                         G.Cfg("tl", "rm", "+00:00", 1293840000, ())))
+    meta["kf3"] = {"stream": "history", "chain": [(978307200, []), (1293840000, [])], "ds": "<!", "de": ">", "known_class": KF3}
+    for i in range(150 if tier == "quick" else 2000):
+        ds, de = rng.choice(G.DELIMS)
+        cfg = G.Cfg("tl", "rm", "+00:00", G.NOW, ("x",))
+        dg = G.DocGen(rng, ds, de, cfg, safe_text=True)
+        dg.strict_unwrap = True
+        dg.blank_wrappers = 0.5
+        s = dg.document(["ready_tl", "pending_tl", "ready_rm", "pending_rm"], 0.6)
+        if not dg.used_blank_wrapper:
+            continue
+        s = re.sub(r'to="[^"]*"', lambda mo: 'to="' + rng.choice(times)[0] + '"', s)
+        chain = sorted(rng.sample(range(len(times)), rng.randint(2, 4)))
+        nows = [times[k][1] + rng.choice([0, 1, 86400]) for k in chain]
+        tsets = sorted([("x",) if rng.random() < 0.5 else () for _ in chain], key=len)
+        cid = f"bw{i}"
+        cases.append(G.dcase(cid, ds, de, s, G.Cfg("tl", "rm", "+00:00", nows[-1], tsets[-1])))
+        meta[cid] = {"stream": "history", "chain": [(nw, list(ts)) for nw, ts in zip(nows, tsets)], "ds": ds, "de": de,
+                     "known_class": KF3}
     for i in range(n):
         ds, de = rng.choice(G.DELIMS)
         cfg = G.Cfg("tl", "rm", "+00:00", G.NOW, ("x",))
@@ -1843,12 +1866,16 @@ def oracle_c19(line, m, impl, model):
         if sw == "PANIC":
             return "a step of the history panicked"
         if sw is not None and R.nonws(unhex(sw)) != R.nonws(unhex(impl["clean"])):
+            if m.get("known_class"):
+                return ("known", m["known_class"])
             return f"step-by-step cleaning {unhex(sw)[:120]!r} and one-shot cleaning {unhex(impl['clean'])[:120]!r} differ beyond whitespace"
         # no stranded tag of a ready element
         r = ref_of(c)
         if not r.abstain and sw is not None:
             r2 = R.Ref(unhex(sw), c["ds"], c["de"], r.cfg)
             if r2.extents and not r2.abstain:
+                if m.get("known_class"):
+                    return ("known", m["known_class"])
                 return "a ready element (or its tag) is stranded after the step-by-step history"
     return None
 
